@@ -324,6 +324,39 @@ def run(ck):
             ck.fail("symop-call:%s" % ln.split()[1], "SymOp.__call__ disagrees with the model action on %r: model %r impl %r" % (ln, o, e),
                     {"kind": "correspondence", "input": ln, "model": o, "impl": e})
     ck.coverage["evaluations"] += nspot
+    # 6. the tables stay what they are while the library is used: look settings up by their own operation lists
+    #    (same order, caller-owned list and operation objects with 4-decimal translations as CIF files carry them),
+    #    mutate the caller's list afterwards, then compare every tabulated object with its state at the start
+    from diffpy.structure.spacegroups import FindSpaceGroup, GetSpaceGroup, SymOp
+
+    snap = [(id(g.symop_list), [id(o) for o in g.symop_list], [(o.R.tolist(), o.t.tolist()) for o in g.symop_list],
+             (g.number, g.num_sym_equiv, g.num_primitive_sym_equiv, g.short_name, g.pdb_name, g.crystal_system)) for g in sgs.SpaceGroupList]
+    used = []
+    for pos in poss[:: max(1, len(poss) // 80)]:
+        g = bypos[pos]
+        mine = [SymOp(numpy.array(o.R, dtype=float), numpy.round(numpy.array(o.t, dtype=float), 4)) for o in g.symop_list]
+        try:
+            FindSpaceGroup(mine)
+            FindSpaceGroup(list(g.symop_list))
+            GetSpaceGroup(g.number)
+        except ValueError:
+            pass
+        mine.reverse()
+        del mine[1:]
+        used.append(g.number)
+    for g, (lid, oids, vals, meta) in zip(sgs.SpaceGroupList, snap):
+        now = (g.number, g.num_sym_equiv, g.num_primitive_sym_equiv, g.short_name, g.pdb_name, g.crystal_system)
+        same = id(g.symop_list) == lid and [id(o) for o in g.symop_list] == oids and \
+            [(o.R.tolist(), o.t.tolist()) for o in g.symop_list] == vals and now == meta
+        if not same:
+            bad = group_oracle(g) or counts_oracle(g)
+            ck.fail("table-modified-by-use:%s" % meta[0],
+                    "the tabulated setting #%s is no longer what the table files define after it was looked up by its operations (%s)" % (
+                        meta[0], (bad or {}).get("what", "operation list object replaced")),
+                    {"kind": "history", "setting": meta[0], "stream": "use", "history": "FindSpaceGroup(caller-owned copy of the operations with 4-decimal translations); caller then edits its list",
+                     "detail": bad})
+            break
+    ck.coverage["evaluations"] += len(used)
     ck.coverage["samples"] = [
         {"obligation": "theorem DS.Gen.sg225_ok : checkSG sg225 sg225c = true := by decide +kernel"},
         {"driver": lines[0], "model": out[0], "impl": expect[0]},
@@ -359,8 +392,34 @@ def replay(path):
         print("setting %r not present" % r.get("setting"))
         return 1
     sg = sg[0]
+    if r.get("stream") == "use":
+        import numpy
+        from diffpy.structure.spacegroups import FindSpaceGroup, SymOp
+
+        before = (id(sg.symop_list), [(o.R.tolist(), o.t.tolist()) for o in sg.symop_list])
+        mine = [SymOp(numpy.array(o.R, dtype=float), numpy.round(numpy.array(o.t, dtype=float), 4)) for o in sg.symop_list]
+        try:
+            FindSpaceGroup(mine)
+        except ValueError:
+            pass
+        mine.reverse()
+        del mine[1:]
+        after = (id(sg.symop_list), [(o.R.tolist(), o.t.tolist()) for o in sg.symop_list])
+        print("tabulated object unchanged by the lookup:", before == after)
+        return 0 if before == after else 1
     bad = group_oracle(sg) or counts_oracle(sg)
     lat = latpar_oracle(sg, isSpaceGroupLatPar)
     print("group/counts oracle:", bad)
     print("latpar oracle:", lat)
-    return 1 if (bad or lat) else 0
+    sys.path.insert(0, VERIF)
+    from translate import tables
+
+    meta = None
+    try:
+        ops = [tables.op_to_ints(o) for o in sg.symop_list]
+        res = tables.mirror_checks(sg, ops, tables.make_cert(ops))
+        meta = {k: v[1] for k, v in res.items() if not v[0]}
+    except ValueError as e:
+        meta = {"untranslatable": str(e)}
+    print("metadata / certificate checks:", meta)
+    return 1 if (bad or lat or meta) else 0
